@@ -139,6 +139,9 @@ func (w *Worker) Fail(class string, cas interface{}, detail string) {
 	if c.violClass[class] > 3 || len(c.violations) >= 40 {
 		return
 	}
+	if len(detail) > 3000 {
+		detail = detail[:1400] + fmt.Sprintf(" …[%d bytes omitted; the replay file has the complete case]… ", len(detail)-2800) + detail[len(detail)-1400:]
+	}
 	c.violations = append(c.violations, Violation{Section: w.sec.Name, Class: class, Case: cas, Detail: detail})
 	if len(c.violations) >= 40 {
 		atomic.StoreInt32(w.stop, 1)
